@@ -705,7 +705,7 @@ fn absorb(rep: &mut Report, lock: &Lock, pan: Option<crate::util::Panic>, src: &
 
 pub fn run(ctx: &Ctx) -> (Report, String) {
     let thorough = ctx.tier == Tier::Thorough;
-    let n_random = ctx.n(4000, 160_000);
+    let n_random = if ctx.miri() { 12 } else { ctx.n(4000, 160_000) };
     let reps = par_shards(64, ctx.threads, |s| {
         let mut rep = Report::new();
         crate::mon::guarded(&mut rep, || J::obj().set("property", "C14").set("shard", s), |rep| shard(ctx, s, n_random, thorough, rep));
@@ -729,7 +729,7 @@ fn shard(ctx: &Ctx, s: usize, n_random: u64, thorough: bool, rep: &mut Report) {
     let base = || J::obj().set("property", "C14").set("tier", ctx.tier_name()).set("seed", ctx.seed).set("stage", ctx.stage.clone()).set("scale", ctx.scale_pct).set("shard", s).set("index", 0);
     // --- bounded-exhaustive: all 1- and 2-op sequences x sources (split over shards) x phases ---
     let stride = if thorough { 1 } else { 4 };
-    let mut si = s;
+    let mut si = if ctx.miri() { usize::MAX } else { s };
     while si < sources.len() {
         let src = &sources[si];
         if ctx.scale_pct < 100 && si % (100 / ctx.scale_pct.max(1)) as usize != 0 {
